@@ -70,6 +70,17 @@ theorem C03_finding_extobj_empty_body :
     encode env 5 .extObj (.extObj 1 (some ⟨some ⟨1, 0, 121, none, none⟩, [], 0⟩) "" .nil) = .error .panicNilValue :=
   ⟨rfl, rfl⟩
 
+/-- an extension object of a registered type without fields (i=121, `DataTypeDefinition`) decodes to a value whatever
+    its body holds, re-encodes with body length 0, and that decodes to `Value == nil` -/
+theorem C03_finding_extobj_zero_field_type :
+    decode env 5 .extObj ⟨[0, 121, 1, 2, 0, 0, 0, 0xaa, 0xbb], 0⟩
+      = .ok (.extObj 1 (some ⟨some ⟨0, 0, 121, none, none⟩, [], 0⟩) "DataTypeDefinition" (.ptr (.struct []))) ⟨[], 0⟩ ∧
+    encode env 5 .extObj (.extObj 1 (some ⟨some ⟨0, 0, 121, none, none⟩, [], 0⟩) "DataTypeDefinition" (.ptr (.struct [])))
+      = .ok [0, 121, 1, 0, 0, 0, 0] ∧
+    decode env 5 .extObj ⟨[0, 121, 1, 0, 0, 0, 0], 0⟩
+      = .ok (.extObj 1 (some ⟨some ⟨0, 0, 121, none, none⟩, [], 0⟩) "" .nil) ⟨[], 0⟩ :=
+  ⟨rfl, rfl, rfl⟩
+
 /-- DateTime 9999-12-31T23:59:59Z (ticks 2650467743990000000, the usual "max" value) is outside the int64-nanosecond
     range: it decodes to a wrapped time, which re-encodes to other ticks, which decode to yet another time -/
 theorem C03_finding_datetime_range :
